@@ -1,3 +1,181 @@
+//! C11: command lookup and ancestry queries are exact.
+use std::collections::BTreeSet;
+
+use aranya_runtime::{Address, Command, Location, MaxCut, Segment, Storage};
+use graphkit::{audit::*, driver::*, r#gen::*, model::*, replica::*};
 use vcore::*;
+
 use crate::Mons;
-pub fn case(_cs: u64, _long: bool, _args: &Args, _mons: &mut Mons, _case: &Value) {}
+
+pub fn case(cs: u64, long: bool, args: &Args, mons: &mut Mons, case: &Value) {
+    let mut rng = Rng::new(cs);
+    let mut model = if long {
+        crate::modes::large::build(2 + (cs % 2) * 2, &mut rng, args.scale.min(100)) // long chain / long branches
+    } else {
+        let mut cfg = GenCfg::small(&mut rng);
+        cfg.n = rng.urange(10, 140);
+        if rng.chance(1, 3) {
+            cfg.shape = Shape::ChainWithBranches;
+        }
+        cfg.p_quiet = 700;
+        DagGen::new(cfg, &mut rng).build()
+    };
+    let n = model.len();
+    let init = model.node(0).id;
+    // Deliver a down-set D (sometimes everything), with a batching that shapes segment lengths.
+    let mut d = Bits::new(n);
+    if rng.chance(1, 2) {
+        for v in 0..n {
+            d.set(v);
+        }
+    } else {
+        for _ in 0..rng.urange(1, 6) {
+            let v = rng.usize(n);
+            d.or(model.ancestors(v));
+        }
+    }
+    let hcfg = HistCfg {
+        order: *rng.pick(&[Order::Creation, Order::RandomTopo, Order::DepthFirst]),
+        max_batch: *rng.pick(&[1, 3, 10, 40, 400]),
+        p_flush: *rng.pick(&[0, 50, 300]),
+        p_commit: *rng.pick(&[0, 30, 200]),
+        p_dup: 0,
+    };
+    let dd = d.clone();
+    let steps = history(&model, &|v| dd.get(v), &hcfg, &mut rng);
+    let mut rep = MemReplica::new_mem(&init);
+    let none = Bits::new(n);
+    let mut obs = Obs::default();
+    let out = run_history(&mut rep, &mut model, &steps, &none, &RunCfg { check_every_commit: false, check_blocks: false }, &mut obs);
+    if out.aborted || out.committed != d {
+        mons.take(obs, case);
+        return;
+    }
+    // Locations of all committed commands, via the walk (independent of get_location).
+    let walked = rep.walk().expect("walk");
+    let mut tbuf = aranya_runtime::TraversalBuffer::new();
+    let graph = rep.graph;
+    let storage = rep.client.provider();
+    let storage = aranya_runtime::StorageProvider::get_storage(storage, graph).expect("storage");
+    let addr_of = |model: &Model, v: usize| Address { id: cmd_id(&model.node(v).id), max_cut: MaxCut::new(model.node(v).max_cut) };
+    let loc_of = |model: &Model, v: usize| walked.get(&model.node(v).id).map(|w| Location::new(aranya_runtime::SegmentIndex::new(w.loc.0), MaxCut::new(w.loc.1)));
+
+    // Coverage: segments and skip lists.
+    let mut segs = BTreeSet::new();
+    let mut rich = 0u64;
+    let mut max_seg_len = 0u64;
+    for w in walked.values() {
+        if segs.insert(w.loc.0) {
+            let seg = storage.get_segment(Location::new(aranya_runtime::SegmentIndex::new(w.loc.0), MaxCut::new(w.loc.1))).expect("segment");
+            if seg.skip_list().len() > 1 {
+                rich += 1;
+            }
+            let len = seg.longest_max_cut().unwrap().get() - seg.shortest_max_cut().get() + 1;
+            max_seg_len = max_seg_len.max(len);
+        }
+    }
+    obs.count("segments", segs.len() as u64);
+    obs.count("segments_with_rich_skip_list", rich);
+    obs.max("max_segment_len", max_seg_len);
+    obs.max("max_max_cut", (0..n).map(|v| model.node(v).max_cut).max().unwrap_or(0));
+
+    // 1. get_location for every node (committed or not), plus wrong-max_cut and unknown ids.
+    for v in 0..n {
+        let a = addr_of(&model, v);
+        let got = storage.get_location(a, &mut tbuf);
+        obs.count("lookups", 1);
+        match got {
+            Ok(Some(loc)) => {
+                if !d.get(v) {
+                    obs.fail("C11", "uncommitted-command-found-by-lookup", json!({"node": v}));
+                    continue;
+                }
+                let seg = storage.get_segment(loc).expect("segment");
+                match seg.get_command(loc) {
+                    Some(c) if c.id() == a.id => {}
+                    _ => obs.fail("C11", "lookup-returned-location-of-another-command", json!({"node": v, "loc": format!("{loc}")})),
+                }
+                if Some(loc) != loc_of(&model, v) {
+                    obs.fail("C11", "lookup-location-differs-from-graph-walk", json!({"node": v}));
+                }
+            }
+            Ok(None) => {
+                if d.get(v) {
+                    obs.fail("C11", "committed-command-not-found-by-lookup", json!({"node": v, "max_cut": model.node(v).max_cut, "hcfg": format!("{hcfg:?}")}));
+                }
+            }
+            Err(e) => obs.fail("C11", "lookup-error", json!({"node": v, "err": e.to_string()})),
+        }
+        if v % 7 == 0 {
+            // right id, wrong max_cut
+            for delta in [-1i64, 1, 5] {
+                let mc = model.node(v).max_cut as i64 + delta;
+                if mc < 0 {
+                    continue;
+                }
+                let wrong = Address { id: a.id, max_cut: MaxCut::new(mc as u64) };
+                if let Ok(Some(_)) = storage.get_location(wrong, &mut tbuf) {
+                    obs.fail("C11", "address-with-wrong-max_cut-found", json!({"node": v, "delta": delta}));
+                }
+            }
+            // unknown id at a plausible max_cut
+            let mut id = model.node(v).id;
+            id[7] ^= 0x5a;
+            if model.idx(&id).is_none() {
+                if let Ok(Some(_)) = storage.get_location(Address { id: cmd_id(&id), max_cut: a.max_cut }, &mut tbuf) {
+                    obs.fail("C11", "unknown-id-found", json!({"node": v}));
+                }
+            }
+        }
+    }
+    // 2. pairs: get_location_from and is_ancestor.
+    let members: Vec<usize> = d.iter().collect();
+    let all_pairs = members.len() <= 300;
+    let pairs: u64 = if all_pairs { (members.len() * members.len()) as u64 } else { args.tier.pick(20_000, 100_000) };
+    for p in 0..pairs {
+        let (x, y) = if all_pairs {
+            (members[p as usize / members.len()], members[p as usize % members.len()])
+        } else {
+            (*rng.pick(&members), *rng.pick(&members))
+        };
+        let (Some(lx), Some(ly)) = (loc_of(&model, x), loc_of(&model, y)) else { continue };
+        obs.count("ancestry_pairs", 1);
+        // is x an ancestor of y ?
+        let want_anc_eq = model.anc_eq(x, y);
+        match storage.get_location_from(ly, addr_of(&model, x), &mut tbuf) {
+            Ok(got) => {
+                if got.is_some() != want_anc_eq {
+                    obs.fail("C11", if want_anc_eq { "ancestor-not-found-from-descendant" } else { "non-ancestor-found-from-location" }, json!({"x": x, "y": y, "x_max_cut": model.node(x).max_cut, "y_max_cut": model.node(y).max_cut, "hcfg": format!("{hcfg:?}")}));
+                } else if let Some(l) = got {
+                    if l != lx {
+                        obs.fail("C11", "get_location_from-returned-other-location", json!({"x": x, "y": y}));
+                    }
+                }
+            }
+            Err(e) => obs.fail("C11", "get_location_from-error", json!({"err": e.to_string()})),
+        }
+        match storage.is_ancestor(lx, ly, &mut tbuf) {
+            Ok(got) => {
+                let want = want_anc_eq && x != y;
+                if got != want {
+                    obs.fail("C11", if want { "is_ancestor-false-for-proper-ancestor" } else { "is_ancestor-true-for-non-ancestor" }, json!({"x": x, "y": y, "x_max_cut": model.node(x).max_cut, "y_max_cut": model.node(y).max_cut, "hcfg": format!("{hcfg:?}")}));
+                }
+                if want {
+                    obs.count("true_ancestor_pairs", 1);
+                }
+            }
+            Err(e) => obs.fail("C11", "is_ancestor-error", json!({"err": e.to_string()})),
+        }
+    }
+    if let Some(m) = mons.get("C11") {
+        m.eval();
+        if rich > 0 || segs.len() > 3 {
+            m.nontrivial(mix2(model.dag.shape_hash(), hash_of(&format!("{hcfg:?}"))));
+        }
+        if rich > 0 {
+            m.count("graphs_with_rich_skip_lists", 1);
+        }
+        m.sample(|| json!({"mode": case["mode"], "case_seed": cs, "commands": n, "committed": d.count(), "segments": segs.len(), "rich_skip_segments": rich, "max_segment_len": max_seg_len, "hcfg": format!("{hcfg:?}")}));
+    }
+    mons.take(obs, case);
+}
